@@ -95,3 +95,47 @@ Proof.
   - subst idle. lia.
   - intros Hne. destruct (q s) as [|x l] eqn:Eq; [congruence|]. cbn [length] in G. lia.
 Qed.
+
+Lemma count_imp_le {A} (g h : A -> bool) f n :
+  (forall i, (i < n)%nat -> g (f i) = true -> h (f i) = true) -> (count g f n <= count h f n)%nat.
+Proof.
+  induction n as [|k IH]; intros H; cbn [count]; [lia|].
+  specialize (IH (fun i Hi => H i ltac:(lia))). specialize (H k ltac:(lia)).
+  destruct (g (f k)); destruct (h (f k)); cbn [b2n]; try lia; try (specialize (H eq_refl); discriminate).
+Qed.
+
+Lemma count_lt_witness {A} (g h : A -> bool) f n :
+  (count g f n < count h f n)%nat -> exists i, (i < n)%nat /\ h (f i) = true /\ g (f i) = false.
+Proof.
+  induction n as [|k IH]; cbn [count]; intros H; [lia|].
+  destruct (h (f k)) eqn:Eh; destruct (g (f k)) eqn:Eg; cbn [b2n] in H.
+  - destruct IH as (i & Hi & ?); [lia|]. exists i. split; [lia|assumption].
+  - exists k. repeat split; [lia|assumption|assumption].
+  - destruct IH as (i & Hi & ?); [lia|]. exists i. split; [lia|assumption].
+  - destruct IH as (i & Hi & ?); [lia|]. exists i. split; [lia|assumption].
+Qed.
+
+(** the growth clause as stated in DESIGN 4/C10: at rest, if a task is waiting then some worker that
+    serves the queue is not inside a task body, or max_threads task bodies are running *)
+Theorem growth_progress mx mn progs sched :
+  valid_cfg mx mn ->
+  let s := run sched (init mx mn progs) in
+  start_done s = true -> (forall c, ewin (cpc (cs s c)) = false) -> q s <> [] ->
+  (exists w, (w < next_w s)%nat /\ serving (ws s w) = true /\ in_body (ws s w) = false) \/
+  Z.of_nat (count in_body (ws s) (next_w s)) = mx.
+Proof.
+  intros Hv s Hsd Hall Hq.
+  destruct (growth_at_rest mx mn progs sched Hv Hsd Hall) as [G _]. fold s in G.
+  pose proof (reachable_inv1 mx mn progs sched Hv) as I. fold s in I.
+  pose proof (i_nb _ I) as Hn. unfold I_nb in Hn.
+  assert (Hbh : (count in_body (ws s) (next_w s) <= count holding (ws s) (next_w s))%nat).
+  { apply count_imp_le. intros i _. unfold in_body, holding. destruct (wpc (ws s i)); try discriminate; reflexivity. }
+  assert (Hbs : (count in_body (ws s) (next_w s) <= count serving (ws s) (next_w s))%nat).
+  { apply count_imp_le. intros i _. unfold in_body, serving. destruct (wpc (ws s i)); try discriminate; reflexivity. }
+  assert (Hlen : (1 <= length (q s))%nat) by (destruct (q s); [congruence | cbn; lia]).
+  destruct (Nat.eq_dec (count in_body (ws s) (next_w s)) (count serving (ws s) (next_w s))) as [E|Hne].
+  - destruct G as [G|G].
+    + exfalso. lia.
+    + right. rewrite E. lia.
+  - left. apply (count_lt_witness in_body serving). lia.
+Qed.
